@@ -239,7 +239,12 @@ class Block(Entity):
             if dtype is None:
                 dtype = 'f8'
         else:
-            data = np.ascontiguousarray(data)
+            if dtype is not None and not hasattr(data, "dtype"):
+                # plain Python values: convert with the requested element type
+                # (NumPy's own guess turns large unsigned integers into floats)
+                data = np.ascontiguousarray(data, dtype=dtype)
+            else:
+                data = np.ascontiguousarray(data)
             if dtype is None:
                 dtype = data.dtype
             if shape is not None:
